@@ -47,6 +47,7 @@ LEVEL = {
 }
 LEVEL["decided"] += " (R02.8) reduce, sum, all, any, min, max, sorted, nlargest, nsmallest, list, tuple, set as finite tables by abstract evaluation (874 cells: every truth pattern, every ranking with ties of up to 3 items, with / without key, default, initial, start) against the stdlib function executed on the same symbols; (R02.9) no handler of an aggregation can intercept an exception raised by user code (C06's census, shared)."
 LEVEL["decided"] += " (R02.6) every raise of the empty-input error has the builtin's class; (R02.10) no __aexit__ of the library returns a truthy value it did not derive from the exception."
+LEVEL["decided"] += ' (R02.11) nlargest / nsmallest take their first n items through a borrowed view that cannot close the source (R07.4, shared).'
 
 AGGREGATIONS = ["builtins.all", "builtins.any", "builtins.sum", "builtins.min", "builtins.max", "builtins._min_max",
                 "builtins.list", "builtins.tuple", "builtins.set", "builtins.dict", "builtins.sorted",
@@ -93,7 +94,7 @@ def run(ctx) -> None:
     c07.r07_4(Relabel(ctx, "R02.11"))
     from . import tooltables
     tooltables.aggregate_tables(ctx, "R02.8")
-    ctx.floor("agg_cells_decided", 600)
+    ctx.floor("agg_cells_decided", 700)
     ctx.floor("guard_cells", 6)  # (one comparison loop x {LT, EQ, GT} x {min, max}; the library has two loops today)
     ctx.floor("aggregations", 15)
     ctx.floor("decided:heapq.nlargest", 100)
